@@ -555,7 +555,68 @@ def run_cl2_case(sh, case):
     G.unload(mod)
 
 
+BADCLS_SRC = """
+from pymtl3 import *
+class Good(Component):
+  def construct(s):
+    s.in_ = InPort(8); s.out = OutPort(8)
+    s.ws = [Wire(8)]
+    s.ws += [Wire(8)]
+    s.ws[0] //= s.in_; s.ws[1] //= s.ws[0]; s.out //= s.ws[1]
+class LateAppend(Component):        # a wire slipped into the list after the list was assigned: never named
+  def construct(s):
+    s.in_ = InPort(8); s.out = OutPort(8)
+    s.ws = [Wire(8)]
+    s.ws.append(Wire(8))
+    s.ws[0] //= s.in_; s.out //= s.ws[0]
+class LateSetitem(Component):
+  def construct(s):
+    s.in_ = InPort(8); s.out = OutPort(8)
+    s.ws = [Wire(8), None]
+    s.ws[1] = Wire(8)
+    s.ws[0] //= s.in_; s.out //= s.ws[0]
+class AliasList(Component):         # a list of wires that already have a name
+  def construct(s):
+    s.in_ = InPort(8); s.out = OutPort(8)
+    s.a = Wire(8); s.ws = [s.a]
+    s.a //= s.in_; s.out //= s.a
+class BTop(Component):
+  def construct(s, cls):
+    s.in_ = InPort(8); s.out = OutPort(8)
+    s.c = cls()
+    s.c.in_ //= s.in_; s.out //= s.c.out
+"""
+
+
+def run_badclass_probe(sh):
+  """a replacement class that a direct build refuses (hardware without a name, one object under two names) is refused by
+  replace_component / replace_component_with_obj as well; a class the direct build accepts is accepted - the replaced design can
+  never hold something a design built from scratch cannot"""
+  from vlib import specgen as G
+  mod = G.load_source(BADCLS_SRC, "c15bad")
+  try:
+    for cname in ("Good", "LateAppend", "LateSetitem", "AliasList"):
+      cls = getattr(mod, cname)
+      try: mod.BTop(cls).elaborate(); direct = None
+      except Exception as e: direct = type(e).__name__
+      for how in ("class", "obj"):
+        top = mod.BTop(mod.Good); top.elaborate()
+        try:
+          if how == "class": top.replace_component(top.c, cls)
+          else: top.replace_component_with_obj(top.c, cls())
+          repl = None
+        except Exception as e: repl = type(e).__name__
+        sh.count("replacement_class_verdicts_compared")
+        if (direct is None) != (repl is None):
+          unnamed = [repr(x)[:60] for x in top._dsl.all_named_objects if "object at 0x" in repr(x)][:3] if repl is None else []
+          sh.violation("replacement-accepted-a-class-the-direct-build-refuses" if repl is None else "replacement-refused-a-class-the-direct-build-accepts",
+                       {"class": cname, "how": how, "direct_build": direct, "replacement": repl, "unnamed_objects_in_the_design": unnamed}, case=("badclass", cname, how))
+  finally:
+    G.unload(mod)
+
+
 def run_shard(sh):
+  if sh.idx == 0: run_badclass_probe(sh)
   for case in range(max(3, sh.params["histories"] // 3)):
     run_cl_case(sh, case)
   for case in range(max(4, sh.params["histories"] // 2)):
